@@ -214,6 +214,7 @@ MUTANTS = [
     m('C06', 'mst_candidates_filtered_by_true_weight_gt1', (MST, "        candidates = [e for e in candidates if not ds.connected(*e)]\n        wgts", "        candidates = [e for e in candidates if not ds.connected(*e)]\n        candidates = [e for e in candidates if weights[e] > 1.0] or candidates\n        wgts")),
     m('C06', 'mwem_rounds_from_records', (MWEM, "    if rounds is None:\n        rounds = len(data.domain)", "    if rounds is None:\n        rounds = len(data.domain) + (1 if data.records > 100 else 0)")),
     m('C06', 'synth_rows_from_true_count', (MST, "    synth = est.synthetic_data()", "    synth = est.synthetic_data(rows=data.records)")),
+    m('C18', 'revert_F14_factorgraph_duplicate_cliques', (FG, "        self.cliques = list(dict.fromkeys(cliques)) # a repeated clique is still one factor", "        self.cliques = cliques")),
 ]
 
 
